@@ -990,6 +990,25 @@ impl<'a> ExpressionLoweringManager<'a> {
       &source_fn_type.argument_types,
       &source_fn_type.return_type,
     );
+    // The lambda body also mentions the generic types of the captured context (e.g. a captured
+    // `k: K` or `f: (K, V) -> R` when `K` does not occur in the lambda's own signature); they
+    // have to be type parameters of the synthetic function as well, otherwise generics
+    // specialization finds no replacement for them.
+    let type_parameters = collect_used_generic_types(
+      &hir::FunctionType {
+        argument_types: vec![context_type.dupe()]
+          .into_iter()
+          .chain(fun_type_without_cx_argument_types.iter().cloned())
+          .collect_vec(),
+        return_type: fun_type_without_cx_return_type.clone(),
+      },
+      &self.type_lowering_manager.generic_types,
+    )
+    .into_iter()
+    .chain(type_parameters)
+    .unique()
+    .sorted()
+    .collect_vec();
     let fn_name = self.allocate_synthetic_fn_name();
     let mut manager = ExpressionLoweringManager::new(
       self.module_reference,
